@@ -10,7 +10,7 @@ COQ_CHECK = "M_Ucs.check_case"
 OBLIGATIONS = ["max_footprint_spec", "accept_safe", "accept_safe_level", "capacity_safe",
                "placement_inv_partial", "done_report_inv", "replica_hosts_inv", "ucs_token_conserved_partial", "ucs_token_unique",
                "ucs_token_invariant", "ucs_replicated_once", "ucs_no_raise", "ucs_progress", "ucs_quiescent_all_done",
-               "ucs_holders_inv", "placement_inv", "ucs_token_variant", "ucs_token_initial_measure", "ucs_terminates"]
+               "ucs_holders_inv", "placement_inv", "ucs_token_variant", "ucs_token_initial_measure", "ucs_terminates", "ucs_eventually_done"]
 N_QUICK, N_THOROUGH = 300, 4000
 PARALLEL = 8
 SHARD = 60
@@ -32,10 +32,11 @@ MODELLED = ("UCSReplication.replicate/on_replicate_request/on_replicate_answer/_
             "cheapest_path_to, affordable_path_from incl. the mutation-while-iterating skip), the asserts of "
             "UCSReplicateMessage, AgentDef.route/hosting_cost are modelled and compared event by event, state "
             "by state and token by token. Agent arrival/removal events are not modelled. Theorems: acceptance "
-            "test / capacity safety / reported placement / token uniqueness and conservation; under symmetric "
-            "non-negative costs and unique computation names: no handler raises, an agent that has not reported "
-            "done still has a message in flight, quiescent => every agent done. The bound on the number of "
-            "deliveries and 'reported hosts = all holders' rest on the oracle of this run.")
+            "test / capacity safety / placement (at most k hosts, no holder outside the recorded set) / token "
+            "uniqueness, conservation and variant / bound on the number of handled messages; under symmetric "
+            "non-negative costs and unique computation names: no handler raises, nothing pending is ever lost, "
+            "quiescent => every agent done, every run can be continued until every agent is done. The oracle "
+            "re-checks all of it on the real objects.")
 META = dict(
     level_text=("Proof (Coq), for every well-formed deployment (any number of agents/computations, any costs, "
                 "k >= 1) and EVERY schedule of starts and per-channel-FIFO deliveries of the UCS replication "
@@ -45,20 +46,21 @@ META = dict(
                 "the replicas of any k_target-1 owners; the hosts a replication reports are distinct, at most k, "
                 "never an owner of the computation, and each holds/has registered the replica; at most one "
                 "request/answer token per computation is ever in flight and a handler never silently drops or "
-                "duplicates it. Under the guards 'route costs between agents symmetric, route and hosting costs >= 0, "
-                "computation names unique' (forced by the proofs; a negative route cost is the recorded finding "
-                "C25-negative-route-assert): no handler of any run raises (pure token invariant: table costs = path "
-                "costs, spent = cost of the request path, budget >= 0, no table entry is a prefix of the token's "
-                "position; plus tracker invariant: tokens + pending orders + 'already replicated' <= 1 per "
-                "computation), an agent that has not reported done has its order or a token of one of its "
-                "computations in flight (or a node is not started), hence every quiescent run ends with every agent "
-                "done. NOT proved (checked by the independent oracle on every generated run): that quiescence is "
-                "reached (the budget sequence is strictly increasing over the finite set of path costs) and that no "
-                "agent outside the reported set holds a replica. "
+                "duplicates it; in every reachable state the hosts recorded in _replica_hosts[c] are at most k and no "
+                "other agent holds a replica of c (unique computation names). Termination: a structural variant "
+                "of the token ((4n+1)*(2*#unvisited + #hosting entries) + position) strictly decreases at every hop "
+                "with NO hypothesis on costs (the budget itself is not monotone), so in EVERY schedule agents "
+                "handle at most Omega = sum_d (1 + #comps(d)*((4n+1)*2n+2n)) messages. Under the guards 'route "
+                "costs between agents symmetric, route and hosting costs >= 0, computation names unique' (forced "
+                "by the proofs; a negative route cost is the recorded finding C25-negative-route-assert): no "
+                "handler of any run raises, an agent that has not reported done has its order or a token of one "
+                "of its computations in flight (or a node is not started), every quiescent run ends with every "
+                "agent done, and every run can be continued by finitely many actions until every agent has "
+                "reported done. "
                 "The model is tied to dist_ucs_hostingcosts.py/path_utils.py/agents.py by replaying the same "
                 "schedules on the real ResilientAgent/UCSReplication/Discovery objects and comparing every "
                 "event, final state and in-flight token."),
-    level_note=("partial. Trusted: Coq kernel/vm_compute, M_Ucs.v + Net.v as a rendering of the Python code, the "
+    level_note=("full for the model (placement in state form; liveness under the stated guards). Trusted: Coq kernel/vm_compute, M_Ucs.v + Net.v as a rendering of the Python code, the "
                 "thread-free netdriver and the stand-in orchestrator/hosted computations. Agent arrival/removal "
                 "during replication is not modelled. k_target is the constructor default 3 (never set by "
                 "ResilientAgent), so the acceptance test is the property's for k <= 3 only."),
